@@ -15,9 +15,13 @@ package itemsfetcher
 //@ ghost gReqN int
 //@ ghost gReqFn int
 //@ ghost gReqIds []interface{}
+//@ // what the latest call of the interest callback returned
+//@ ghost gInterested []interface{}
 //@
 //@ // assumed of the application's interest callback: it is a filter (returns only items it was given)
 //@ funcfield Callback.OnlyInterested
+//@   modifies gInterested
+//@   ghost gInterested = result
 //@   ensures forall(j, 0, len(result), exists(i, 0, len(ids), result[j] == ids[i]))
 //@ funcfield Callback.Suspend
 //@   ensures true
@@ -67,16 +71,16 @@ package itemsfetcher
 //@ // the timer was armed whenever items were pending before, it is so afterwards ([armed])
 //@ func (*Fetcher).processNotification
 //@   requires finv(f) && fetchTimer != nil && notification.fetchItems != nil
-//@   modifies f.announces.lru.items[*], f.announces.lru.weight, lel[f.announces.lru.evictList], llen[f.announces.lru.evictList], lidx[*], lown[*], nEvict, gEvictKey, gEvictVal, all(simplewlru.entry).value, all(simplewlru.entry).weight, f.fetching[*], gTimerArmed[fetchTimer], allelems(announceData)
+//@   modifies f.announces.lru.items[*], f.announces.lru.weight, lel[f.announces.lru.evictList], llen[f.announces.lru.evictList], lidx[*], lown[*], nEvict, gEvictKey, gEvictVal, all(simplewlru.entry).value, all(simplewlru.entry).weight, f.fetching[*], gTimerArmed[fetchTimer], allelems(announceData), gInterested
 //@   at call simplewlru.Cache).Add[1] modifies f.fetching[*]
 //@   at call simplewlru.Cache).Add[1] assumes cwsum(f.announces.lru) <= 9223372036854775807
-//@   at call workers.Workers).Enqueue[1] requires [announced] fetchItems == cur(notification).fetchItems && forall(j, 0, len(hashes), exists(i, 0, len(cur(notification).ids), hashes[j] == cur(notification).ids[i]))
+//@   at call workers.Workers).Enqueue[1] requires [announced] fetchItems == cur(notification).fetchItems && forall(j, 0, len(hashes), exists(i, 0, len(gInterested), hashes[j] == gInterested[i]))
 //@   ensures  finv(f)
 //@   ensures  [armed] (old(pending(f)) ==> old(gTimerArmed[fetchTimer])) ==> (pending(f) ==> gTimerArmed[fetchTimer])
 //@   loop 1 modifies f.announces.lru.items[*], f.announces.lru.weight, lel[f.announces.lru.evictList], llen[f.announces.lru.evictList], lidx[*], lown[*], nEvict, gEvictKey, gEvictVal, all(simplewlru.entry).value, all(simplewlru.entry).weight, f.fetching[*], allelems(announceData), toFetch[*]
 //@   loop 1 invariant arrof(toFetch) == arrof(atentry(toFetch)) || arrfresh(toFetch, _loopalloc)
 //@   loop 1 invariant finv(f) && 0 <= _k && _k <= len(_range)
-//@   loop 1 invariant [subset] forall(j, 0, len(toFetch), exists(i, 0, _k, toFetch[j] == _range[i]))
+//@   loop 1 invariant [subset] forall(j, 0, len(toFetch), exists(i, 0, _k, toFetch[j] == _range[i])) && _range == gInterested
 //@   loop 1 hint assert _k == iterold(_k) + 1 && len(toFetch) >= iterold(len(toFetch)) && len(toFetch) <= iterold(len(toFetch)) + 1 && forall(j, 0, iterold(len(toFetch)), toFetch[j] == iterold(toFetch[j]))
 //@   loop 1 hint assert len(toFetch) == iterold(len(toFetch)) + 1 ==> toFetch[len(toFetch) - 1] == _range[_k - 1]
 //@
@@ -107,8 +111,8 @@ package itemsfetcher
 //@ // every order, pending items imply an armed fetch timer. Received items are forgotten.
 //@ func (*Fetcher).loop
 //@   requires finv(f)
-//@   modifies f.announces.lru.items[*], f.announces.lru.weight, lel[f.announces.lru.evictList], llen[f.announces.lru.evictList], lidx[*], lown[*], nEvict, gEvictKey, gEvictVal, all(simplewlru.entry).value, all(simplewlru.entry).weight, f.fetching[*], gTimerArmed[*], allelems(announceData), allelems("interface{}")
-//@   loop 1 modifies f.announces.lru.items[*], f.announces.lru.weight, lel[f.announces.lru.evictList], llen[f.announces.lru.evictList], lidx[*], lown[*], nEvict, gEvictKey, gEvictVal, all(simplewlru.entry).value, all(simplewlru.entry).weight, f.fetching[*], gTimerArmed[*], allelems(announceData), allelems("interface{}")
+//@   modifies f.announces.lru.items[*], f.announces.lru.weight, lel[f.announces.lru.evictList], llen[f.announces.lru.evictList], lidx[*], lown[*], nEvict, gEvictKey, gEvictVal, all(simplewlru.entry).value, all(simplewlru.entry).weight, f.fetching[*], gTimerArmed[*], allelems(announceData), allelems("interface{}"), gInterested
+//@   loop 1 modifies f.announces.lru.items[*], f.announces.lru.weight, lel[f.announces.lru.evictList], llen[f.announces.lru.evictList], lidx[*], lown[*], nEvict, gEvictKey, gEvictVal, all(simplewlru.entry).value, all(simplewlru.entry).weight, f.fetching[*], gTimerArmed[*], allelems(announceData), allelems("interface{}"), gInterested
 //@   loop 1 invariant finv(f) && fetchTimer != nil
 //@   loop 1 invariant [armed] pending(f) ==> gTimerArmed[fetchTimer]
 //@   loop 2 modifies f.announces.lru.items[*], f.announces.lru.weight, lel[f.announces.lru.evictList], llen[f.announces.lru.evictList], lidx[*], lown[*], nEvict, gEvictKey, gEvictVal, f.fetching[*]
